@@ -148,9 +148,6 @@ class MetConfig:
             if isinstance(val, list):
                 list_fields[name] = len(val)
 
-        if not list_fields:
-            return  # all scalars, fine
-
         lengths = set(list_fields.values())
         if len(lengths) > 1:
             raise ValueError(
@@ -158,7 +155,7 @@ class MetConfig:
                 f"Got: {list_fields}"
             )
 
-        n = lengths.pop()
+        n = lengths.pop() if lengths else 1  # all scalars: a single step
         if self.timestamps is not None and len(self.timestamps) != n:
             raise ValueError(
                 f"timestamps length ({len(self.timestamps)}) does not match "
